@@ -276,7 +276,11 @@ func (g *gen) kindPair(explicit bool) []*Type {
 	ints := []string{"int32", "uint8", "int64", "uint16"}
 	pick := func(ts []*Type, label string) *Type { return ts[g.intn(label, len(ts))] }
 	for tries := 0; tries < 4; tries++ {
-		switch g.intn("kindRecipe", 7) {
+		recipe := g.intn("kindRecipe", 7)
+		if explicit && g.chance("kindRecipeContainers", 50) {
+			recipe = 6 // container cases need explicit tags, so they only get their chance here
+		}
+		switch recipe {
 		case 0:
 			if len(enums) > 0 {
 				return []*Type{pick(enums, "kpEnum"), Prim(ints[g.intn("kpInt", len(ints))])}
@@ -302,7 +306,18 @@ func (g *gen) kindPair(explicit bool) []*Type {
 			}
 		default:
 			if explicit {
-				return []*Type{Vector(Prim("int32")), FixedVector(Prim("float64"), 2)}
+				if g.chance("kpArrayKinds", 50) {
+					return []*Type{Vector(Prim("int32")), FixedVector(Prim("float64"), 2)}
+				}
+				// arrays that are JSON objects ({"shape":..,"data":..}) next to another object-shaped case
+				arr := &Type{Kind: KArray, Elem: Prim("float32"), HasDims: true, Dims: []Dim{{Name: "x"}, {Name: "y"}}}
+				if g.chance("kpDynArr", 40) {
+					arr = DynArray(Prim("int32"))
+				}
+				if len(recs) > 0 && g.chance("kpArrRec", 50) {
+					return []*Type{arr, pick(recs, "kpRecC")}
+				}
+				return []*Type{arr, Map(Prim("string"), Prim("int32"))}
 			}
 		}
 	}
